@@ -103,8 +103,12 @@ def _chunk(task):
 
 
 def PROOFS():
-    from ..contracts import call_resolver_c
-    return [("vf.contracts.call_resolver_c", ["formulae.terms.call_resolver.LazyCall.eval"])]
+    from ..contracts import call_resolver_c, transforms_c, variable_c
+    T = "formulae.transforms."
+    return [("vf.contracts.call_resolver_c", ["formulae.terms.call_resolver.LazyCall.eval"]),
+            ("vf.contracts.transforms_c", [T + "Center.__call__", T + "Scale.__call__", T + "BSpline.__call__", T + "BSpline.eval",
+                                           T + "Polynomial.__init__"]),
+            ("vf.contracts.variable_c", variable_c.FUNCTIONS)]
 
 
 def run(report, findings):
